@@ -114,6 +114,7 @@ def run(ctx):
         ctx.guard(colour, ctx, base, ctx.facts(col), col)
         import c08, c11
         ctx.guard(c08.keep_only, ctx, lambda col=col: c11.colour_detection(ctx, col, ctx.facts(col)), lambda o: True, 'C.colour')
+        ctx.guard(c08.keep_only, ctx, lambda col=col: c11.stream_table(ctx, col, ctx.facts(col)), lambda o: 'print_message' in o.key, 'C.colour')
     ctx.guard(inert, ctx, base, ctx.facts('ac'), 'ac')
     ctx.guard(family, ctx, ctx.facts('ac'), 'ac')
     ctx.guard(live_pure_total, ctx, ctx.facts('ac'), 'ac')
